@@ -23,7 +23,7 @@ checks, na = [], []
 for p in props:
     pid = p['id']
     m = meta.get(pid, {})
-    if pid in claimed and not m.get('not_applicable'):
+    if pid in claimed and not m.get('not_applicable') and 'text' in m:
         c = {
             'property_id': pid,
             'quick_cmd': f'./check {pid} --tier quick',
